@@ -9,3 +9,11 @@ claim("C18", "DESIGN.md section 7 (C18)",
       "(int160.*, bucket index and random-ID hooks, CloserThan, containers, k-nearest) through the compiled Lean driver, plus direct oracles on the Go results.",
       IDEAL + "K-nearest tie-breaking (per-container random hash seed) is modelled as a relation; hash collisions between different address strings (64-bit) are ignored; immutable.SortedMap assumed a correct sorted map.",
       "Lean 4 theorems + differential correspondence (Go vs compiled Lean driver)")
+
+claim("C17", "DESIGN.md section 7 (C17)",
+      "Kernel-checked theorems over the executable model of security.go (bit-by-bit CRC32-C, masks regenerated from the source, To4, SecureNodeId, NodeIdSecure, isLocalNetwork): securing touches only the first 21 bits, "
+      "is idempotent, makes the ID verify; verification is exactly the BEP 42 rule on 21-bit prefixes; local ranges accept every ID; no crash on any 4/16-byte address. Tied to the Go code on every run by "
+      "differential execution of SecureNodeId/NodeIdSecure/CRC through the Lean driver, an independent statement of the BEP rule in the harness, NewServer-generated IDs for configured public IPs, "
+      "and (thorough) the exhaustive 2^20 masked IPv4 values x 8 seeds.",
+      IDEAL + "hash/crc32 is compared against the Lean CRC on every run (not assumed). The BEP 42 test vectors are tests, not theorems.",
+      "Lean 4 theorems + differential correspondence (Go vs compiled Lean driver)")
